@@ -105,6 +105,11 @@ def cells(tier):
         for op in ('roStoryInsert', 'roStoryReplace', 'EAStoryReplace', 'roItemInsert', 'roItemReplace',
                    'EAItemReplace', 'EAItemInsert', 'EAStoryInsert', 'roStoryAppend'):
             out.append(pcell(op, 2, 3, T=T))
+    # carried elements whose ID tag is blank: they arrive exactly as sent
+    for op in ('roStoryAppend', 'roStoryInsert', 'roStoryReplace', 'EAStoryInsert', 'EAStoryReplace',
+               'roItemInsert', 'roItemReplace', 'EAItemInsert', 'EAItemReplace'):
+        out.append(pcell(op, 2, 1, T=T, blank_new=0))
+        out.append(pcell(op, 2, 2, T=T, blank_new=1))
     # the same from a state reached through a roReplace
     for op in ('roStoryInsert', 'roStoryReplace', 'EAStoryReplace', 'roItemInsert', 'roItemReplace', 'EAItemReplace',
                'EAItemInsert', 'EAStoryInsert', 'roStoryAppend'):
